@@ -8,8 +8,9 @@ PROP = {
              "{0,2,5}s x latency {1ms,1s}; random unit: run-structured scripts up to 200 observations, wider settings incl. the shipped "
              "defaults (5, 7s, 1s, 300s), per-observation latencies; wiring unit: the real NewDiagnosisFailsafeStateChangeWatcher with a "
              "real TxnPoliciesAccessor and scripted HAProxy statistics. A case is non-trivial when the script contains a qualifying run "
-             "(>= N consecutive equal observations spanning >= the stable period) and a non-qualifying flip (a run that starts with a "
-             "state change and does not qualify); distinct = distinct (settings, script, latencies)"),
+             "that produced (or, by the completeness clause, had to produce) a reaction and a non-qualifying flip (a run that starts "
+             "with a state change and has < N observations or spans < the stable period under every reading); distinct = distinct "
+             "(settings, script, latencies)"),
     "assumptions": [
         "one predicate call takes > 0 virtual time (the real predicate is an HTTP round trip); the watcher blocks only in clock.After / clock.Sleep, which advance virtual time immediately",
         "the time of an observation may be read as the call or the return of the predicate, and the stable period may be measured from the run's first observation or from the previous observation; a reaction is accepted if any reading satisfies the statement",
